@@ -17,5 +17,9 @@ check("C04", "exploration",
       "Independent layout oracle vs the emulator grid at every main input wait (prompt cells, wrapping incl. wide characters at the margin, one row per embedded newline, blank elsewhere, cursor cell, no remnants of earlier taller frames), judged under two ESC[K terminal models (violation only if wrong under both), over thousands of recall+edit sessions on 8-120 column terminals.",
       TCB + " Frames are classed by geometric cause (plain / tab / zero-width / wide-at-margin / exact-fill / wrapped multi-line / narrow prompt); known findings cover only the listed non-plain classes.", "runtime monitoring: terminal emulator + independent layout model", "DESIGN.md 5 C04")
 
+check("C05", "exploration",
+      "Differential oracle over delivery schedules of one byte script: base (one token per read) vs per byte, one read, random cut sets (thorough: all cut sets of scripts <= 8 bytes) and type-ahead coupled with the terminal's cursor-position reply (before / same write / after); every schedule must return the same (line, err); a disagreement is localised to a single read boundary where possible.",
+      TCB + " Scripts are well-formed keyboard input (valid UTF-8, complete sequences); in Vi modes the boundary directly after ESC is kept as in the base schedule.", "runtime monitoring: differential testing over controlled delivery schedules", "DESIGN.md 5 C05")
+
 for _p in ["C03","C04","C05","C06","C07","C08","C09","C10","C11","C12","C13","C14","C15","C16","C17","C18","C19","C20"]:
     NOT_YET[_p] = "check under construction in this session (runtime monitor designed in DESIGN.md section 5, not yet registered)"
